@@ -22,6 +22,7 @@ import (
 	"path/filepath"
 	"sort"
 	"strings"
+	"time"
 
 	. "verifharness/lib"
 
@@ -376,6 +377,49 @@ func stagePeer(c *Ctx, im *Impl, cf *CaseFile) {
 				upd(atkID, map[string]float64{selfID: 1, "nb": cost})}, "")
 		}
 	}
+	// advertisement histories: the same (node, service) newer / older / equal in time, withdrawn
+	// and re-announced before and after the withdrawal's time (keep / replace / tombstone branches)
+	{
+		ad := func(t int, cancel bool) dgram {
+			return dgram{msg(2, adTree("nodeZ", "svc", time.Unix(1700000000+int64(t), 0), cancel), r), "advert-history"}
+		}
+		for _, h := range [][]dgram{
+			{ad(10, false), ad(20, false), ad(15, false), ad(20, false)},
+			{ad(10, false), ad(20, true), ad(15, false), ad(20, false), ad(25, false)},
+			{ad(10, true), ad(5, false), ad(10, false), ad(11, false), ad(11, true), ad(12, true), ad(11, false)},
+			{ad(30, false), ad(30, true), ad(40, true), ad(35, false), ad(45, false), ad(45, true)},
+		} {
+			add("advert-history", append([]dgram{hs}, h...), "")
+		}
+		// duplicate-suspicion updates about a THIRD node whose epoch the victim knows / does not know
+		ru := func(ep, seq, dup uint64, uid string) dgram {
+			f := ruFields{Node: "nodeZ", UID: uid, Fwd: atkID, Epoch: ep, Seq: seq, Dup: dup, Conns: map[string]float64{"nodeY": 1}}
+			return dgram{msg(1, f.tree(), r), "route-third-party-duplicate"}
+		}
+		add("third-party-duplicate", []dgram{hs, ru(5, 1, 0, "k1"), ru(9, 1, 5, "k2"), ru(9, 2, 0, "k3"), ru(12, 1, 7, "k4"), ru(9, 3, 0, "k5"), ru(12, 1, 9, "k6"), ru(12, 2, 0, "k7")}, "")
+		add("third-party-duplicate", []dgram{hs, ru(9, 1, 5, "m1"), ru(5, 1, 0, "m2"), ru(5, 1, 0, "m2"), ru(4, 9, 0, "m3"), ru(5, 1, 0, "m4"), ru(5, 2, 0, "m5")}, "")
+	}
+	// sessions behind an allow-list and per-node costs (C11 owns admission; here: same bytes, other policy)
+	for _, pol := range []SessSpec{
+		{Cost: 2, HasAllowed: true, Allowed: []string{atkID, "nodeZ"}, NodeCost: map[string]float64{atkID: 0.5}},
+		{Cost: 1, HasAllowed: true, Allowed: []string{"someone-else"}},
+		{Cost: 4, NodeCost: map[string]float64{"nodeZ": 3}},
+	} {
+		for k := 0; k < 3; k++ {
+			ds := []dgram{genDatagram(r, epoch, false), hs}
+			direct := ruFields{Node: atkID, UID: fmt.Sprintf("pol%d", len(cases)), Fwd: atkID, Epoch: 7, Seq: 2, Conns: map[string]float64{selfID: []float64{0.5, 2, 4, 1}[r.Intn(4)]}}
+			ds = append(ds, dgram{msg(1, direct.tree(), r), "route-plausible"})
+			direct.Conns = map[string]float64{"nodeZ": 1}
+			direct.UID += "b"
+			ds = append(ds, dgram{msg(1, direct.tree(), r), "route-plausible"})
+			for j := r.Intn(4); j > 0; j-- {
+				ds = append(ds, genDatagram(r, epoch, true))
+			}
+			add("policy", ds, "")
+			pol.Transport = ""
+			cases[len(cases)-1].spec.Sessions[0] = pol
+		}
+	}
 	// generated sequences
 	n := 450
 	if c.Thorough() {
@@ -401,18 +445,22 @@ func stagePeer(c *Ctx, im *Impl, cf *CaseFile) {
 		add(phase, ds, "")
 	}
 	// stage 3: real TCP / UDP listeners (oracle only)
-	ns := 40
+	ns := 80 // 10 transports x (empty first; the crash witnesses; 6 generated mixes)
 	if c.Thorough() {
-		ns = 400
+		ns = 800
 	}
 	for i := 0; i < ns; i++ {
-		tr := []string{"tcp", "udp"}[i%2]
+		trs := []string{"tcp", "udp", "tls", "ws", "wss", "tcp-dial", "udp-dial", "ws-dial", "ext", "extws"}
+		tr := trs[i%len(trs)]
 		var ds []dgram
-		switch i / 2 {
+		switch i / len(trs) {
 		case 0:
 			ds = []dgram{{[]byte{}, "empty"}}
 		case 1:
-			ds = []dgram{hs, {[]byte{}, "empty"}, {[]byte("\x02{\"Cancel\":true}"), "advert-no-content"}, {[]byte("\x02null"), "advert-no-content"}}
+			full := dataPacket(5, nameHash(atkID), nameHash(selfID), "client", "probe", []byte("DATA"))
+			ds = []dgram{hs, {[]byte{}, "empty"}, {[]byte("\x02{\"Cancel\":true}"), "advert-no-content"}, {[]byte("\x02null"), "advert-no-content"},
+				{dataPacket(30, nameHash(selfID), nameHash(selfID), "ping", "ping", nil), "ping-loop"}, {full[:34], "valid-data-truncated"},
+				{full[:35], "valid-data-truncated"}, {full, "data"}}
 		default:
 			for k := r.Intn(3); k > 0; k-- {
 				ds = append(ds, genDatagram(r, epoch, false))
@@ -425,6 +473,34 @@ func stagePeer(c *Ctx, im *Impl, cf *CaseFile) {
 		add("socket-"+tr, ds, tr)
 	}
 
+	// below the datagram level: hostile websocket frames and plain bytes into a TLS listener
+	hsb := msg(1, handshakeTree(atkID), nil)
+	for _, tr := range []string{"ws", "ws-dial", "extws"} {
+		for k, steps := range [][]Step{
+			{{Op: "send", Data: hsb, WSType: 1}, {Op: "send", Data: []byte{}, WSType: 1}},                                       // text messages
+			{{Op: "send", Data: []byte("p"), WSType: 9}, {Op: "send", Data: hsb}, {Op: "send", Data: []byte("q"), WSType: 10}},  // ping, pong around the handshake
+			{{Op: "send", Data: hsb}, {Op: "send", Data: []byte{3, 0xe8}, WSType: 8}, {Op: "send", Data: []byte{}, PauseMs: 5}}, // close frame, then more
+			{{Op: "raw", Data: []byte{0x82, 0xff, 0xff, 0xff, 0xff, 0xff, 0xff, 0xff, 0xff, 0xff, 1, 2, 3, 4}}},                 // 2^64-1 byte frame announced
+			{{Op: "raw", Data: []byte{0x82, 0x00}}, {Op: "raw", Data: []byte{0x82, 0x80, 0, 0, 0, 0}}},                          // unmasked / masked empty binary frames
+			{{Op: "send", Data: hsb}, {Op: "raw", Data: []byte{0x8f, 0x80, 1, 2, 3, 4}}, {Op: "raw", Data: r.Bytes(40)}},        // reserved opcode, garbage
+			{{Op: "raw", Data: []byte{0x02, 0x81, 0, 0, 0, 0, 1}}, {Op: "hangup"}},                                              // unfinished fragment, then gone
+		} {
+			cs := &c07Case{phase: "wsframes-" + tr, kinds: []string{"websocket-frames"}, dgrams: [][]byte{[]byte(fmt.Sprintf("%s/frames-%d", tr, k))}}
+			cs.spec = CaseSpec{ID: len(cases), NodeID: selfID, Epoch: epoch, GoodPeer: goodID, Sessions: []SessSpec{{Cost: 1, Transport: tr}}, SettleMs: 40, Steps: steps}
+			cases = append(cases, cs)
+		}
+	}
+	for k, steps := range [][]Step{
+		{{Op: "raw", Data: r.Bytes(64)}},
+		{{Op: "raw", Data: []byte{0x16, 0x03, 0x01, 0x02, 0x00, 0x01, 0x00, 0x01, 0xfc, 0x03, 0x03}}, {Op: "hangup"}}, // ClientHello cut short
+		{{Op: "raw", Data: []byte("GET / HTTP/1.1\r\nHost: x\r\n\r\n")}},
+		{{Op: "raw", Data: []byte{0, 0}}, {Op: "raw", Data: append([]byte{byte(len(hsb)), byte(len(hsb) >> 8)}, hsb...)}}, // a plain receptor peer
+		{{Op: "raw", Data: []byte{0x15, 0x03, 0x03, 0x00, 0x02, 0x02, 0x28}}},                                             // a TLS alert first
+	} {
+		cs := &c07Case{phase: "tlsraw", kinds: []string{"plain-bytes-into-tls"}, dgrams: [][]byte{[]byte(fmt.Sprintf("tlsraw/%d", k))}}
+		cs.spec = CaseSpec{ID: len(cases), NodeID: selfID, Epoch: epoch, GoodPeer: goodID, Sessions: []SessSpec{{Cost: 1, Transport: "tlsraw"}}, SettleMs: 40, Steps: steps}
+		cases = append(cases, cs)
+	}
 	framerCases(r, epoch, c.Thorough(), func(cs *c07Case) {
 		cs.spec.ID = len(cases)
 		cases = append(cases, cs)
@@ -450,7 +526,7 @@ func stagePeer(c *Ctx, im *Impl, cf *CaseFile) {
 		im.Count("peer "+transport+" "+seqKey(cs.dgrams), len(cs.dgrams) > 1)
 		replay := map[string]interface{}{"phase": cs.phase, "transport": transport, "epoch": cs.spec.Epoch,
 			"datagrams_hex": hexList(cs.dgrams), "kinds": cs.kinds}
-		if strings.HasPrefix(cs.phase, "framer-") {
+		if strings.HasPrefix(cs.phase, "framer-") || strings.HasPrefix(cs.phase, "wsframes-") || cs.phase == "tlsraw" {
 			replay["stream_case"] = string(cs.dgrams[0])
 			delete(replay, "datagrams_hex")
 		}
